@@ -848,9 +848,12 @@ class RangePlugin(Plugin):
     (?P<start>
         ('[^']*?'\s+)             # single-quoted
         |                         # or
-        ([^\]}]+?(?=[Tt][Oo]))    # everything until "to"
+        # everything until a "to" that stands on its own (after white space
+        # or the bracket, before white space or the bracket), not the letters
+        # "to" inside a word: [tomato TO zebra]
+        ([^\]}]+?(?=(?<=[\s\[{])[Tt][Oo](?=[\s\]}])))
     )?
-    [Tt][Oo]                      # "to"
+    [Tt][Oo](?=[\s\]}])          # "to"
     (?P<end>
         (\s+'[^']*?')             # single-quoted
         |                         # or
